@@ -191,6 +191,7 @@ func c05() {
 		})
 	}
 	r.Count("compositions", compositions)
+	l2Cycles(r, "C05")
 	r.Sample(map[string]string{"outcome_set_example": "change \"a\": D{} -> D{a:F b:L}: results tried = nil, D{}, D{a:F}, D{b:L}, D{a:F b:L}, plus sub-trees of the endpoint's current content"})
 	r.Assume("L1 composes ancestor changes and transition results in the order controller.synchronize uses (reconciliation's ancestor changes, then alpha results, then beta results)")
 	r.Finish("plans with 1..3 changes from the bounded space (quick: every 23rd triple, offset by seed; thorough: all) and random deep triples; each change gets every outcome from {nothing, every prefix-closed sub-tree of the planned content, every prefix-closed sub-tree of the endpoint's current content}; all assignments up to a cap, sampled above; distinct = plan-shape signatures explored", 30)
